@@ -369,6 +369,30 @@ pub(crate) mod __verif_k {
         std::mem::forget(vm);
     }}
 
+    /// get_local / set_local near the 16-bit limit: base pointer and slot index are 16-bit, their SUM is not.
+    /// A 70 000-slot stack (one allocation, contents irrelevant) and any bp, idx with bp + idx inside it.
+    #[kani::proof]
+    fn k_local_slot_wide() {
+        let mut vm = VM::new();
+        let n: usize = 70000;
+        let mut big: Vec<Object> = Vec::with_capacity(n);
+        // contents are never inspected except the one slot written below
+        unsafe { big.set_len(n); }
+        vm.stack = big;
+        let bp: u16 = kani::any();
+        let idx: u16 = kani::any();
+        kani::assume((bp as usize) + (idx as usize) < n);
+        vm.bp = bp;
+        let x = arb_imm().0;
+        vm.set_local(idx, x);
+        let y = vm.get_local(idx);
+        assert!(same(x, y));
+        assert!(same(vm.stack[bp as usize + idx as usize], x));
+        kani::cover!(bp as usize + idx as usize >= 65536);
+        kani::cover!(bp == 0 && idx == 0);
+        std::mem::forget(vm);
+    }
+
     // ------------------------------------------------------------------ jumps
     contract! { fn k_jump() {
         let (mut vm, pre, h) = mk_vm(1);
